@@ -79,7 +79,18 @@ def run_with_inert(spec, mode):
             rr2 = scen.run(s2, mode)
             # the pull's own stream must be identical; with a callback there is an extra stat() stream before it
             def own(r_):
-                return [e['_raw'][24:] for e in r_.events if e['ev'] == 'tx' and e['cmd'] == 'WRTE' and b'RECV' in e['_raw']]
+                # what the host wrote on the pull's own stream: the first sync: stream opened after the call of operation i began
+                started = False
+                lid_ = None
+                out_ = []
+                for e in r_.events:
+                    if e['ev'] == 'call' and (e.get('info') or {}).get('i') == i:
+                        started = True
+                    elif started and lid_ is None and e['ev'] == 'tx' and e['cmd'] == 'OPEN' and e['_raw'][24:] == b'sync:\0':
+                        lid_ = e['a0']
+                    elif lid_ is not None and e['ev'] == 'tx' and e['cmd'] == 'WRTE' and e['a0'] == lid_:
+                        out_.append(e['_raw'][24:])
+                return out_
             inert[i] = (own(rr) == own(rr2) and rr.extra.get('pulled', {}).get(i) == rr2.extra.get('pulled', {}).get(i)
                         and rr.outcomes[1 + i].key()[0] == rr2.outcomes[1 + i].key()[0])
     return rr, inert
@@ -147,15 +158,23 @@ def body(ctx):
                              dict(api='resume', gen='log')])
             for mode in ('sync', 'async'):
                 runs.append((mode, spec) + run_with_inert(spec, mode))
-    for k4, size in enumerate((1, 70000, 200000)):
-        spec = dict(seed=ctx.seed + 760 + k4, maxdata=4096, rid='plus', frag='whole', ops=[dict(api='pull', path='/re', size=size, dest='bytesio', cb='reenter'),
+    from .. import env as env_
+    for k4, (size, cbk) in enumerate([(1, 'reenter'), (70000, 'reenter'), (200000, 'reenter'), (70000, 'reenter_stat'), (200000, 'reenter_pull'), (1, 'reenter_pull')]):
+        spec = dict(seed=ctx.seed + 760 + k4, maxdata=4096, rid='plus', frag='whole', ops=[dict(api='pull', path='/re', size=size, dest='bytesio', cb=cbk),
                                                                                              dict(api='shell', decode=False, cmd='after', chunks=[b'ok'.hex()])])
         for mode in ('sync', 'async'):
+            leaks0 = len(env_.LOCK_LEAKS)
             rr_, inert_ = run_with_inert(spec, mode)
             runs.append((mode, spec, rr_, inert_))
             got_ = rr_.extra.get('reentered', {}).get(0, [])
-            if any(bytes(x) != b're-entered' for x in got_) or (size and not got_):
-                ctx.violation('C08.CallbackInert', dict(kind='a callback that runs a command on the same device', mode=mode, size=size, results=[repr(x)[:40] for x in got_][:5]))
+            want_ = {'reenter': b're-entered', 'reenter_pull': b'nested-content'}.get(cbk)
+            if (want_ is not None and any(bytes(x) != want_ for x in got_)) or (size and not got_) or len(env_.LOCK_LEAKS) > leaks0:
+                ctx.violation('C08.CallbackInert', dict(kind='a callback that runs another operation on the same device', callback=cbk, mode=mode, size=size, results=[repr(x)[:40] for x in got_][:5],
+                                                        lock_requested_while_held=len(env_.LOCK_LEAKS) > leaks0))
+    # a file that arrives in more than a thousand records
+    spec = dict(seed=ctx.seed + 790, maxdata=65536, rid='plus', frag='whole', ops=[dict(api='pull', path='/many', size=1500, data_sizes=[1] * 1500, cuts='whole', dest='bytesio', cb=None)])
+    for mode in ('sync', 'async'):
+        runs.append((mode, spec) + run_with_inert(spec, mode))
     judge(ctx, runs, 'offsets, random sizes/records/cuts/destinations/callbacks')
     ctx.assumptions += ['a model header byte stands for 4 real bytes and a model body byte for 5 (the reader is position-agnostic); all 7 intra-header offsets are covered by the single-cut family',
                         'with a progress callback pull() first issues stat() on another stream: CallbackInert compares the RECV stream and the bytes written']
